@@ -47,7 +47,10 @@ def guarded(f):
     except BaseException as e:  # noqa: B902 - implementation exceptions are observables
         if isinstance(e, (KeyboardInterrupt, SystemExit)):
             raise
-        return {"exc": exc_name(e), "msg": str(e)[:200]}
+        # messages may quote generated module names (geverif_grammar_<pid>_<n>) and object addresses: neither is an observable
+        import re as _re
+        msg = _re.sub(r"geverif_grammar_\d+_\d+", "geverif_grammar", _re.sub(r"0x[0-9a-fA-F]+", "0x…", str(e)))
+        return {"exc": exc_name(e), "msg": msg[:200]}
     finally:
         _depth[0] -= 1
         if outer:
